@@ -58,3 +58,35 @@ Qed.
 Lemma sync_witness_after_fix :
   Inv source (snd (read_ source src_read 2 true (init source 3 {| sdata := []; sched := [] |}) 1)).
 Proof. vm_compute. split; lia. Qed.
+
+(* sync, before the fix, THROUGH A DELIMITED CHILD: the top-level source is conforming and has
+   exactly the declared length (b"ab-cdef", 7), but the child's source -- the parent's
+   read_until(b"-") -- ends at the delimiter by construction; child.read(3) obtains 2 bytes and
+   leaves _buffer_pos = 3 > _buffer_len = 2.  In the real code a further delimit() on the child
+   then computes a negative max_stream_len and the grandchild's read_until never returns: the
+   shape in which the thorough tier found the defect in the shipped Cython twin (notes/C14.md). *)
+Definition b_abdash : bytes := [97; 98; 45; 99; 100; 101; 102]%N.   (* b"ab-cdef" *)
+
+Lemma sync_child_inv_refuted_before_fix :
+  exists cs data d n,
+    0 < cs /\ 1 <= length d /\ length d <= cs /\
+    let parent := init source (length data) {| sdata := data; sched := [] |} in
+    let child := init (state source) (child_max source parent) parent in
+    Inv source parent /\ Inv (state source) child /\
+    ~ Inv (state source)
+        (snd (read_ (state source) (child_rd source src_read cs false d) cs false child n)).
+Proof.
+  exists 4, b_abdash, b_dash, 3.
+  split; [lia|]. split; [simpl; lia|]. split; [simpl; lia|].
+  split; [split; simpl; lia|]. split; [split; simpl; lia|].
+  vm_compute. intros [_ H]. lia.
+Qed.
+
+Lemma sync_child_witness_after_fix :
+  let parent := init source 7 {| sdata := b_abdash; sched := [] |} in
+  let child := init (state source) (child_max source parent) parent in
+  Inv (state source)
+      (snd (read_ (state source) (child_rd source src_read 4 true b_dash) 4 true child 3))
+  /\ fst (read_ (state source) (child_rd source src_read 4 true b_dash) 4 true child 3)
+     = [97; 98]%N.
+Proof. vm_compute. split; [split; lia | reflexivity]. Qed.
